@@ -1,6 +1,6 @@
 claim("C16",
       "exhaustive byte strings + rapid strings + model-based Peek/Next histories (rapid state machine) against an input-reconstruction oracle",
-      "Every byte string of length <=4 (quick) / <=5 (thorough) over a 14-byte alphabet that reaches every lexer branch is lexed and checked against the input itself (prefix reconstruction with whitespace skipping, rune-boundary, Peek/Peek/Next agreement with an unpeeked twin lexer, EOF stickiness, error tokens only where the harness's own scanner sees a lexical error, Parse rejects); every emitted token must start with a character that can start a token; plus random byte / rune / hostile / low-byte-aliasing strings, printed queries with injected lexical errors, and random interleavings of Peek and Next checked against the token list of an unpeeked twin. Held on everything explored; not a proof for longer inputs.",
+      "Every byte string of length <=4 (quick) / <=5 (thorough) over two byte alphabets (16 bytes: quotes, slash, escape, wildcard, colon, bracket, whitespace, two multi-byte runes; 21 bytes: number syntax, every one-character operator, range brackets, three illegal characters) is lexed and checked against the input itself (prefix reconstruction with whitespace skipping, rune-boundary, Peek/Peek/Next agreement with an unpeeked twin lexer, EOF stickiness, error tokens only where the harness's own scanner sees a lexical error, Parse rejects); every emitted token must start with a character that can start a token; plus random byte / rune / hostile / low-byte-aliasing strings, printed queries with injected lexical errors, and random interleavings of Peek and Next checked against the token list of an unpeeked twin. Held on everything explored; not a proof for longer inputs.",
       "Trusts Go's utf8/unicode tables, rapid, and the harness's 20-line scanner for what counts as a lexical error. Token kinds and exact boundaries are deliberately not specified.",
       "DESIGN.md section 4, C16")
 claim("C01",
@@ -35,7 +35,7 @@ claim("C06",
       "DESIGN.md section 4, C06")
 claim("C11",
       "exhaustive token sequences + printed/mutated trees; metamorphic pair Parse(q) vs Parse(q, WithDefaultField(f))",
-      "For every enumerated / generated query and a default-field name that does not occur in it: acceptance is the same with and without the option; erasing every f: scoping from the scoped tree gives exactly the unscoped tree; no bare term remains in operand position; f never appears inside another field's value, range bound or list.",
+      "For every enumerated / generated query (incl. 48 unusual ways to write one term - ill-formed regexps, wildcard / number / keyword look-alikes, field-less ranges - in 19 operand and value positions) and a default-field name that does not occur in it: acceptance is the same with and without the option; erasing every f: scoping from the scoped tree gives exactly the unscoped tree; no bare term remains in operand position; f never appears inside another field's value, range bound or list.",
       "The erase / bare-term / re-scoping walks are harness code (trusted). Queries that use f explicitly are outside the property.",
       "DESIGN.md section 4, C11")
 claim("C12",
@@ -50,12 +50,12 @@ claim("C13",
       "DESIGN.md section 4, C13")
 claim("C15",
       "rapid + enumerated trees x render-function maps; tracing fold (call log laid over the tree); model-based driver-isolation histories (rapid state machine)",
-      "For generated and hand-built trees and, for every operator, a tracing map / single-operator override / removed / failing function: the call log must be exactly the bottom-up fold of the tree with the supplied functions (one call per node, right operator, children before parents, arguments are the children's results in at most one pair of parentheses, containers in order, root result returned); an override changes output only at that operator's nodes; a missing function yields an error and empty output iff the operator occurs; the stock renderers fail on every query containing ~ or ^. A state machine creates, customises and strips drivers in random order: each must keep rendering like a private model of its own map, the stock renderers must keep refusing ~ and ^ and driver.Shared must stay as it was.",
+      "For generated and hand-built trees and, for every operator, a tracing map / single-operator override / removed / failing function: the call log must be exactly the bottom-up fold of the tree with the supplied functions (one call per node, right operator, children before parents, arguments are the children's results in at most one pair of parentheses, containers in order, root result returned); an override changes output only at that operator's nodes; a missing function yields an error and empty output iff the operator occurs; a tree with any one node replaced by the zero Expression (operator registered nowhere) fails with empty output under every map; with leaf functions that all return the same text every LIST function still receives one item per value; the stock renderers fail on every query containing ~ or ^. A state machine creates, customises and strips drivers in random order: each must keep rendering like a private model of its own map, the stock renderers must keep refusing ~ and ^ and driver.Shared must stay as it was.",
       "The fold checker is harness code (trusted). Values containing the tracer's marker runes are skipped.",
       "DESIGN.md section 4, C15")
 claim("C14",
       "seeded stress over a (goroutines x GOMAXPROCS) grid under the race detector; differential against a sequential run + snapshots",
-      "A seed-determined corpus is parsed once into shared expressions; goroutines behind a barrier run seed-determined operation sequences over shared and private inputs (also a shared custom driver). Every concurrent result must equal the sequential result, three sequential runs must agree, shared trees must be deep-equal to copies taken before use, and the -race build must report nothing. The number of truly overlapping operation pairs on shared inputs is measured and reported.",
+      "A seed-determined corpus (generated queries, the repository's inputs, and queries whose field name is a number other queries use as a value) is parsed once into shared expressions; goroutines behind a barrier run seed-determined operation sequences over shared and private inputs (also a shared custom driver). Every concurrent result must equal the sequential result, three sequential runs must agree, shared trees must be deep-equal to copies taken before use, and the -race build must report nothing. The number of truly overlapping operation pairs on shared inputs is measured and reported.",
       "The harness does not own the Go scheduler: interleavings are sampled; a race needs both conflicting accesses to execute (in any order) to be flagged. A schedule-dependent failure may not reproduce from the replay file, which therefore carries the history / race report.",
       "DESIGN.md section 4, C14")
 claim("C02",
@@ -65,7 +65,7 @@ claim("C02",
       "DESIGN.md section 4, C02")
 claim("C08",
       "hostile-pool strings x {quoted, escaped} x 12 positions; oracle is the value itself, with PostgreSQL's literal decoder as the judge of the SQL constant",
-      "Every hostile-pool entry (alone, letter-prefixed, letter-suffixed) and random hostile strings up to 10^4 bytes are written between double quotes and as fully escaped bare words at 12 positions (f:v, bare, f:>=v, both range bounds, list element, under NOT/+/-, after AND, field group, field name); the tree leaf, the constant PostgreSQL decodes from the inline SQL at that position and the parameter at the expected index must each equal the value byte for byte.",
+      "Every hostile-pool entry (alone, letter-prefixed, letter-suffixed) every string of 1..2 (thorough 1..3) characters over a 34-character alphabet of Lucene / SQL specials, and random hostile strings up to 10^4 bytes are written between double quotes and as fully escaped bare words at 12 positions (f:v, bare, f:>=v, both range bounds, list element, under NOT/+/-, after AND, field group, field name); the tree leaf, the constant PostgreSQL decodes from the inline SQL at that position and the parameter at the expected index must each equal the value byte for byte.",
       "Single-quoted phrases and values containing '\"' (quote clause) or numeric / keyword-looking values (escape clause) are outside the property. One open finding (F15: \"*\" as a range boundary) is excluded by signature and announced.",
       "DESIGN.md section 4, C08")
 claim("C03",
@@ -75,6 +75,6 @@ claim("C03",
       "DESIGN.md section 4, C03")
 claim("C04",
       "exhaustive + rapid renderable trees with a same-kind value re-assignment; differential inline vs parameterized through PostgreSQL's grammar",
-      "For every renderable generated query (all leaf forms incl. bare terms, regexps of every length, one-character patterns, quoted *, open and mixed-type ranges, mixed lists; default field on/off): parameterized rendering succeeds whenever inline does; placeholders == parameters; the parameter list is the generator's left-to-right value list with Go kinds; inline SQL and parameter-substituted SQL have the same normal form or agree on all probe rows; re-assigning values of the same kinds leaves the SQL text byte-identical.",
+      "For every renderable generated query (all leaf forms incl. bare terms, regexps of every length, one-character patterns, quoted *, open and mixed-type ranges, mixed lists, every pair of 16 awkward quoted strings (trailing backslash, commas, apostrophes) as range bounds under field names that need quoting; default field on/off): parameterized rendering succeeds whenever inline does; placeholders == parameters; the parameter list is the generator's left-to-right value list with Go kinds; inline SQL and parameter-substituted SQL have the same normal form or agree on all probe rows (an inline text PostgreSQL cannot read next to a readable parameterized one is a violation); re-assigning values of the same kinds leaves the SQL text byte-identical.",
       "The expected parameter list comes from the print plan, not from the parser. F15 (\"*\" as a range boundary) is excluded by signature.",
       "DESIGN.md section 4, C04")
